@@ -712,6 +712,12 @@ class _Mark:
     The mark is deactivated as soon as the checking is over. The marks inherited through the copies of the context
     (which nobody removes) are thus ignored once their call has finished, even if the identifier of the thread
     or the task which made them is re-used later on.
+
+    A finished check only deactivates its own mark. It does not write the set which it found at its start back
+    to the context variable: a suspended asynchronous call may be finished out of order and in another context
+    (closed or cancelled from within another check, finalised by the garbage collector), and writing the old set
+    there would wipe the marks of the checks which are in progress in that context. The dead marks are dropped when
+    the set is read the next time (see ``_get_in_progress``).
     """
 
     __slots__ = ("flow", "target", "active")
@@ -876,7 +882,6 @@ def decorate_with_checker(func: CallableT) -> CallableT:
                     )
             finally:
                 mark.active = False
-                _IN_PROGRESS.set(in_progress)
 
             # The contract checking is suspended only while the contracts of the function are being checked.
             # During the execution of the function itself, the calls to the function (*e.g.*, a recursion or
@@ -907,7 +912,6 @@ def decorate_with_checker(func: CallableT) -> CallableT:
                 return result
             finally:
                 mark.active = False
-                _IN_PROGRESS.set(in_progress)
 
     else:
 
@@ -974,7 +978,6 @@ def decorate_with_checker(func: CallableT) -> CallableT:
                     )
             finally:
                 mark.active = False
-                _IN_PROGRESS.set(in_progress)
 
             # The contract checking is suspended only while the contracts of the function are being checked.
             # During the execution of the function itself, the calls to the function (*e.g.*, a recursion or
@@ -1007,7 +1010,6 @@ def decorate_with_checker(func: CallableT) -> CallableT:
                 return result
             finally:
                 mark.active = False
-                _IN_PROGRESS.set(in_progress)
 
     # Copy __doc__ and other properties so that doctests can run
     functools.update_wrapper(wrapper=wrapper, wrapped=func)
@@ -1161,7 +1163,6 @@ def _decorate_new_with_invariants(new_func: CallableT) -> CallableT:
         finally:
             if mark is not None:
                 mark.active = False
-                _IN_PROGRESS.set(in_progress)
 
         if nested:
             return instance
@@ -1245,7 +1246,6 @@ def _decorate_with_invariants(func: CallableT, is_init: bool) -> CallableT:
                 return result
             finally:
                 mark.active = False
-                _IN_PROGRESS.set(in_progress)
 
     else:
         # (mristin, 2021-02-16)
@@ -1310,7 +1310,6 @@ def _decorate_with_invariants(func: CallableT, is_init: bool) -> CallableT:
                     return result
                 finally:
                     mark.active = False
-                    _IN_PROGRESS.set(in_progress)
 
         else:
 
@@ -1364,7 +1363,6 @@ def _decorate_with_invariants(func: CallableT, is_init: bool) -> CallableT:
                     return result
                 finally:
                     mark.active = False
-                    _IN_PROGRESS.set(in_progress)
 
     functools.update_wrapper(wrapper=wrapper, wrapped=func)
 
